@@ -371,9 +371,17 @@ def _sparse(repo, col):
               "`if len(pre_rows) > 0`", "the append is not guarded against an empty draw", node=c)
     # roles
     pre, post = ex.term(c.args[0]), ex.term(c.args[1])
+    def drawn_from(t_, param):
+        """the VALUES of the cell draw `t_` are cells of view `param` and of no other view: a reordering `draw[perm]` keeps the
+        values of `draw` (the permutation may be computed from either end), so only the value source counts"""
+        while t_.op in ("sub", "elem"):
+            t_ = t_.args[0]
+        if t_.op == "mcall" and t_.name in ("choice", "permutation") and len(t_.args) >= 2:
+            t_ = t_.args[1]   # the population drawn from (the NUMBER of draws involves both views)
+        views = {x.args[0].name for x in t_.walk() if x.op == "attr" and x.name == "_cells_in_view" and x.args[0].op == "param"}
+        return views == {param}
     pi = T.find(pre, lambda x: x.op == "sub" and x.args[0].op == "attr" and x.args[0].name == "_cumsum_ncomp_per_cell")
-    ok = pi is not None and T.find(pi.args[1], lambda x: x.op == "attr" and x.name == "_cells_in_view" and
-                                   x.args[0].op == "param" and x.args[0].name == pre_param) is not None
+    ok = pi is not None and drawn_from(pi.args[1], pre_param)
     col.check(ok, "R-C20-roles", fi, "sparse_connect: presynaptic site = first compartment of the drawn pre cell",
               "base._cumsum_ncomp_per_cell[cells drawn from the pre view]", f"pre rows are {pre.short()}", node=c)
     sc = T.find(post, lambda x: x.op == "call" and x.name == "sample_comp")
@@ -383,8 +391,7 @@ def _sparse(repo, col):
         ok = v.op == "mcall" and v.name == "cell" and v.args[0].op == "mcall" and v.args[0].name == "scope" and \
             v.args[0].args[1].op == "const" and v.args[0].args[1].name == "global" and \
             v.args[0].args[0].op == "param" and v.args[0].args[0].name == post_param and \
-            T.find(v.args[1], lambda x: x.op == "attr" and x.name == "_cells_in_view" and x.args[0].op == "param"
-                   and x.args[0].name == post_param) is not None
+            drawn_from(v.args[1], post_param)
     col.check(ok, "R-C20-roles", fi, "sparse_connect: postsynaptic site sampled inside the drawn post cell",
               "sample_comp(post_view.scope('global').cell(c)) with c drawn from the post view's cells",
               f"post rows are {post.short()}", node=c)
